@@ -17,10 +17,16 @@ groups = [
  ["src/oomd/plugins/PressureAbove.cpp", "src/oomd/plugins/PressureRisingBeyond.cpp", "src/oomd/plugins/MemoryAbove.cpp", "src/oomd/plugins/MemoryReclaim.cpp", "src/oomd/plugins/SwapFree.cpp", "src/oomd/plugins/Exists.cpp", "src/oomd/plugins/NrDyingDescendants.cpp"],
  ["src/oomd/OomdContext.cpp", "src/oomd/include/CgroupPath.cpp", "src/oomd/plugins/KillMemoryGrowth-inl.h", "src/oomd/plugins/KillPgScan-inl.h", "src/oomd/plugins/KillPressure-inl.h", "src/oomd/plugins/KillSwapUsage-inl.h", "src/oomd/plugins/KillIOCost-inl.h"],
 ]
+EXTRA = ""
+if first >= 61:
+    EXTRA = """  9. interface-level reshaping between INTERNAL functions (private members, file-static functions, lambdas): a parameter passed by value <-> by const reference; a bool result + out-parameter <-> a std::optional result; one function split into two that are called in sequence, or two private functions that are always called together merged into one; a file-static free function turned into a private static member or the reverse; a lambda turned into a named private member function or the reverse; a default argument made explicit at all call sites; a private data member given an in-class initialiser instead of the constructor initialiser (same value); definitions reordered within the file;
+ 10. error-handling respellings with identical outcomes: `if (!x) return err; use(*x);` <-> `if (x) { use(*x); } else { return err; }`; an early `return` hoisted in front of unrelated pure computations; the same error value built in one place and returned from several; a repeated `OLOG << ...` sequence moved into a helper that is called at the same points (same text, same order).
+"""
 for k, files in enumerate(groups):
     r = "R%d" % (first + k)
     wt = '/tmp/refac-%s' % r
     subprocess.run(['git', '-C', '/repo', 'worktree', 'add', '-q', '--detach', wt, 'HEAD'], check=True)
+    EX_ = EXTRA
     prompt = f"""You are helping test a static-analysis effort for the open-source project facebookincubator/oomd (a userspace Linux OOM killer, C++20, meson build). You have your own scratch git worktree of the project at {wt} . Work ONLY inside {wt} (never touch /repo or /verif, and do not read anything under /verif).
 
 YOUR TASK: write a BEHAVIOUR-PRESERVING change to these files, the kind a maintainer would merge as "no functional change":
@@ -35,7 +41,7 @@ Make 8-14 separate edits spread over as many different functions as you can. Thi
   6. standard-library respellings: `find(...) != end()` <-> `count(...)` <-> `contains(...)`; `emplace` <-> `insert`/`try_emplace` where the key is known absent or semantics are identical; `std::string` building with `+` vs `append` vs a stream when the resulting text is identical; `size() == 0` <-> `empty()`; `std::min/max` vs a conditional; erase-remove <-> `std::erase_if`; hand loop <-> `std::any_of`/`find_if`/`accumulate`/`for_each` (do NOT use <ranges>/std::views - the analysis front end cannot parse them);
   7. constants: a magic number given a `constexpr` name (same type, same value); a duplicated string literal given a name; `static_cast` made explicit where the implicit conversion was the same;
   8. renames of locals, parameters and private helpers (NOT public API, NOT config argument strings, NOT log/kmsg text); comments.
-Every edit must keep ALL observable behaviour identical: same system calls in the same order with the same arguments, same files read/written, same log and kmsg text, same return values, same exceptions, same locking, same evaluation order where it is observable, same handling of every error path, same integer widths and signedness. Do not fix bugs. Do not change what is copied vs referenced where that could be observed. Do not reorder operations on shared state. If you are not certain an edit preserves behaviour, do not make it.
+{EX_}Every edit must keep ALL observable behaviour identical: same system calls in the same order with the same arguments, same files read/written, same log and kmsg text, same return values, same exceptions, same locking, same evaluation order where it is observable, same handling of every error path, same integer widths and signedness. Do not fix bugs. Do not change what is copied vs referenced where that could be observed. Do not reorder operations on shared state. If you are not certain an edit preserves behaviour, do not make it.
 
 How to build and test (offline sandbox, no network, everything needed is installed):
   cd {wt} && meson setup _build >/dev/null && meson compile -C _build && meson test -C _build
